@@ -465,7 +465,7 @@ func runC20(c *eng.Ctx) {
 			found := false
 			ast.Inspect(ret.Results[1], func(n ast.Node) bool {
 				if id, ok := n.(*ast.Ident); ok {
-					if o := info.Uses[id]; o == hookPath || (o != nil && (o.Name() == "hookName")) {
+					if o := info.Uses[id]; o == hookPath || (o != nil && (nameOf(o) == "hookName")) {
 						found = true
 					}
 				}
